@@ -148,6 +148,19 @@ def require_derived_or_prim(ex, func, a):
 
 @model(r"(PartialOrd|PartialEq|Ord)(<.*>)?>::(lt|le|gt|ge|eq|ne)$")
 def m_cmp(ex, st, func, args, argtys, dest_ty):
+    mh = re.search(r"^<(.*?) as (?:std::cmp::|core::cmp::)?PartialOrd<(.*)>>::(lt|le|gt|ge)$", func)
+    if mh and norm_ty(mh.group(1)) != norm_ty(mh.group(2)) and isinstance(deref(args[0]), Struct):
+        # default lt/le/gt/ge over a hand-written heterogeneous partial_cmp: run that impl
+        target = ex.resolve("<%s as PartialOrd<%s>>::partial_cmp" % (mh.group(1), mh.group(2)), argtys, "?")
+        if target is None:
+            raise Unsupported("no partial_cmp impl for %s" % func)
+        op = mh.group(3)
+        def cont(rv, op=op):
+            if not (isinstance(rv, Enum) and rv.variant == 1):
+                return False                      # None: every comparison is false
+            o = rv.fields[0].variant              # 0 Less, 1 Equal, 2 Greater
+            return {"lt": o == 0, "le": o <= 1, "gt": o == 2, "ge": o >= 1}[op]
+        return [("call", (target, list(args), cont), None)]
     require_derived_or_prim(ex, func, args[0])
     name = func.rsplit("::", 1)[1]
     lt, eq = lex_cmp(args[0], args[1])
@@ -234,6 +247,8 @@ def m_unwrap_or_default(ex, st, func, args, argtys, dest_ty):
         return [("ret", 0, None)]
     if dest_ty == "bool":
         return [("ret", False, None)]
+    if re.search(r"Option<", dest_ty):
+        return [("ret", none(), None)]
     raise Unsupported("unwrap_or_default for %s" % dest_ty)
 
 
@@ -308,6 +323,7 @@ def call_closure(ex, st, clos, cargs):
     sub.pc = list(st.pc)
     sub.notes = st.notes
     sub.strattrs = st.strattrs
+    sub.scratch = True
     res = ex.run_fn(target, args, sub)
     out = []
     base = len(st.pc)
@@ -907,6 +923,7 @@ def State_with(st, extra):
     s2.pc = list(st.pc) + list(extra)
     s2.notes = st.notes
     s2.strattrs = st.strattrs
+    s2.scratch = True
     return s2
 
 
@@ -1414,7 +1431,7 @@ def m_entry_or_default(ex, st, func, args, argtys, dest_ty):
 def m_map_get(ex, st, func, args, argtys, dest_ty):
     base = cref(args[0])
     mp = base.get()
-    i = map_find(ex, st, mp, deref(args[1]))
+    i = globals()["map_find"](ex, st, mp, deref(args[1]))
     if i is None:
         return [("ret", none(), None)]
     return [("ret", some(Ref(base.cell, base.path + (i, 1), True)), None)]
@@ -1423,7 +1440,7 @@ def m_map_get(ex, st, func, args, argtys, dest_ty):
 @model(r"HashMap::<.*>::remove::<.*>$")
 def m_map_remove(ex, st, func, args, argtys, dest_ty):
     mp = deref(args[0])
-    i = map_find(ex, st, mp, deref(args[1]))
+    i = globals()["map_find"](ex, st, mp, deref(args[1]))
     if i is None:
         return [("ret", none(), None)]
     pair = mp.pop(i)
@@ -1478,6 +1495,13 @@ def m_char_from_u32(ex, st, func, args, argtys, dest_ty):
     v = args[0]
     valid = zand(zor(zint(v) < 0xD800, zint(v) > 0xDFFF), zint(v) <= 0x10FFFF) if not is_conc(v) else ((v < 0xD800 or v > 0xDFFF) and v <= 0x10FFFF)
     return [("ret", some(v), valid), ("ret", none(), znot(valid))]
+
+
+@model(r"^<ordinals::RuneId as (std::default::)?Default>::default$")
+def m_runeid_default(ex, st, func, args, argtys, dest_ty):
+    if not ex.is_derived("ordinals::RuneId", "PartialEq"):
+        raise Unsupported("RuneId is expected to derive its traits")
+    return [("ret", Struct([0, 0]), None)]
 
 
 @model(r"^<(u8|u16|u32|u64|u128|usize|bool) as (std::default::)?Default>::default$")
@@ -1717,3 +1741,247 @@ def m_varint_encode_to_vec(ex, st, func, args, argtys, dest_ty):
         n >>= 7
     v.append(n)
     return [("ret", Struct([]), None)]
+
+
+# ------------------------------------------------------------------ more container/iterator models (index_runes)
+
+def struct_eq(a, b):
+    lt, eq = lex_cmp(a, b)
+    return eq
+
+
+def map_find(ex, st, mp, key):          # redefinition: keys may be structs (RuneId)
+    for i, pair in enumerate(mp):
+        if ex.decide(st, struct_eq(pair[0], key)):
+            return i
+    return None
+
+
+@model(r"hash_map::Entry::<.*>::or_default$")
+def m_entry_or_default2(ex, st, func, args, argtys, dest_ty):
+    e = args[0]
+    base = e.data["map"]
+    mp = base.get()
+    i = map_find(ex, st, mp, e.data["key"])
+    if i is None:
+        if "VecDeque" in func:
+            dv = Container("deque")
+        elif re.search(r", (lot::)?Lot>::or_default", func):
+            dv = Struct([0])
+        elif re.search(r", (u\d+|usize)>::or_default", func):
+            dv = 0
+        else:
+            raise Unsupported("default value for %s" % func)
+        mp.append(Struct([e.data["key"], dv]))
+        i = len(mp) - 1
+    return [("ret", Ref(base.cell, base.path + (i, 1), True), None)]
+
+
+MODELS.insert(0, MODELS.pop())      # takes precedence over the earlier or_default model
+
+
+@model(r"HashMap::<.*>::is_empty$")
+def m_map_is_empty(ex, st, func, args, argtys, dest_ty):
+    return [("ret", len(deref(args[0])) == 0, None)]
+
+
+@model(r"^std::vec::from_elem::<.*>$")
+def m_vec_from_elem(ex, st, func, args, argtys, dest_ty):
+    n = args[1]
+    if not is_conc(n):
+        raise Unsupported("vec![x; n] with symbolic n")
+    return [("ret", Container("vec", [copy.deepcopy(args[0]) for _ in range(n)]), None)]
+
+
+@model(r"^<Vec<.*> as (std::ops::)?IndexMut<usize>>::index_mut$|^<Vec<.*> as (std::ops::)?Index<usize>>::index$")
+def m_vec_index(ex, st, func, args, argtys, dest_ty):
+    base = cref(args[0])
+    v = base.get()
+    i = args[1]
+    if not is_conc(i):
+        vals = ex.enumerate_values(st, i, 16)
+        if len(vals) != 1:
+            raise ForkOn(i == vals[0])
+        i = vals[0]
+    if i >= len(v):
+        return [("panic", "index out of bounds", None)]
+    return [("ret", Ref(base.cell, base.path + (i,), "IndexMut" in func), None)]
+
+
+@model(r"^Vec::<.*>::as_slice$")
+def m_vec_as_slice(ex, st, func, args, argtys, dest_ty):
+    return [("ret", cref(args[0]), None)]
+
+
+@model(r"^<std::slice::Iter<'_, .*> as Iterator>::copied::<.*>$")
+def m_iter_copied(ex, st, func, args, argtys, dest_ty):
+    args[0].data["copied"] = True
+    return [("ret", args[0], None)]
+
+
+@model(r"^<Copied<std::slice::Iter<'_, .*>> as Iterator>::next$")
+def m_copied_next(ex, st, func, args, argtys, dest_ty):
+    it = deref(args[0])
+    d = it.data
+    if d["pos"] >= len(d["arr"]):
+        return [("ret", none(), None)]
+    v = copy.deepcopy(d["arr"][d["pos"]])
+    d["pos"] += 1
+    return [("ret", some(v), None)]
+
+
+@model(r"^<std::vec::IntoIter<.*> as Iterator>::enumerate$")
+def m_vec_into_iter_enumerate(ex, st, func, args, argtys, dest_ty):
+    v = args[0]
+    return [("ret", Opaque("owned_iter", {"arr": list(v), "pos": 0, "enum": True}), None)]
+
+
+@model(r"^<Enumerate<std::vec::IntoIter<.*>> as Iterator>::next$|^<std::vec::IntoIter<.*> as Iterator>::next$")
+def m_owned_iter_next(ex, st, func, args, argtys, dest_ty):
+    base = cref(args[0])
+    it = base.get()
+    if isinstance(it, Container):            # a Vec used directly as its own IntoIter
+        if len(it) == 0:
+            return [("ret", none(), None)]
+        return [("ret", some(it.pop(0)), None)]
+    d = it.data
+    if d["pos"] >= len(d["arr"]):
+        return [("ret", none(), None)]
+    i = d["pos"]
+    d["pos"] += 1
+    return [("ret", some(Struct([i, d["arr"][i]]) if d["enum"] else d["arr"][i]), None)]
+
+
+@model(r"hash_map::IntoIter<.*> as Iterator>::next$")
+def m_map_into_iter_next(ex, st, func, args, argtys, dest_ty):
+    mp = deref(args[0])
+    if len(mp) == 0:
+        return [("ret", none(), None)]
+    pair = mp.pop(0)
+    return [("ret", some(Struct([pair[0], pair[1]])), None)]
+
+
+@model(r"hash_map::IntoIter<.*> as Iterator>::collect::<Vec<.*>>$")
+def m_map_collect_vec(ex, st, func, args, argtys, dest_ty):
+    mp = args[0]
+    return [("ret", Container("vec", [Struct([p[0], p[1]]) for p in mp]), None)]
+
+
+@model(r"^<&(std::collections::)?HashMap<.*> as IntoIterator>::into_iter$")
+def m_map_ref_into_iter(ex, st, func, args, argtys, dest_ty):
+    return [("ret", Opaque("map_iter", {"base": cref(args[0]), "pos": 0}), None)]
+
+
+MODELS.insert(0, MODELS.pop())      # before the generic `as IntoIterator>::into_iter`
+
+
+@model(r"hash_map::Iter<.*> as Iterator>::next$")
+def m_map_iter_next(ex, st, func, args, argtys, dest_ty):
+    it = deref(args[0])
+    d = it.data
+    base = d["base"]
+    mp = base.get()
+    if d["pos"] >= len(mp):
+        return [("ret", none(), None)]
+    i = d["pos"]
+    d["pos"] += 1
+    return [("ret", some(Struct([Ref(base.cell, base.path + (i, 0)), Ref(base.cell, base.path + (i, 1))])), None)]
+
+
+@model(r"^<Enumerate<std::slice::Iter<'_, .*>> as Iterator>::filter_map::<.*>$")
+def m_filter_map(ex, st, func, args, argtys, dest_ty):
+    return [("ret", Opaque("filter_map", {"it": args[0], "f": args[1]}), None)]
+
+
+@model(r"^<FilterMap<.*> as Iterator>::collect::<Vec<.*>>$")
+def m_filter_map_collect(ex, st, func, args, argtys, dest_ty):
+    d = args[0].data
+    it = d["it"].data
+    out = []
+    for i in range(it["pos"], len(it["arr"])):
+        elem = Struct([i, Ref([it["arr"][i]])]) if it.get("enum") else Ref([it["arr"][i]])
+        res = call_closure(ex, st, d["f"], [elem])
+        live = [r for r in res if r[2] is None or is_conc(r[2]) and r[2] or (not is_conc(r[2]) and ex.feasible(st.pc, r[2]))]
+        if len(live) != 1 or live[0][0] != "ret":
+            raise Unsupported("filter_map closure forks (its inputs must be decided first)")
+        v = live[0][1]
+        if v.variant == 1:
+            out.append(v.fields[0])
+    return [("ret", Container("vec", out), None)]
+
+
+@model(r"^<Enumerate<std::slice::Iter<'_, .*>> as Iterator>::find::<.*>$")
+def m_enum_find(ex, st, func, args, argtys, dest_ty):
+    it = deref(args[0]).data
+    for i in range(it["pos"], len(it["arr"])):
+        elem = Struct([i, Ref([it["arr"][i]])])
+        res = call_closure(ex, st, args[1], [Ref([elem])])
+        live = [r for r in res if r[2] is None or is_conc(r[2]) and r[2] or (not is_conc(r[2]) and ex.feasible(st.pc, r[2]))]
+        if len(live) != 1 or live[0][0] != "ret":
+            raise Unsupported("find predicate forks")
+        b = live[0][1]
+        if ex.decide(st, b):
+            it["pos"] = i + 1
+            return [("ret", some(elem), None)]
+    it["pos"] = len(it["arr"])
+    return [("ret", none(), None)]
+
+
+@model(r"Option::<.*>::inspect::<.*>$")
+def m_option_inspect(ex, st, func, args, argtys, dest_ty):
+    e = args[0]
+    if e.variant == 0:
+        return [("ret", e, None)]
+    return in_state_call(ex, args[1], [Ref([e.fields[0]])], lambda rv, e=e: e)
+
+
+@model(r"Option::<.*>::or_else::<.*>$")
+def m_option_or_else(ex, st, func, args, argtys, dest_ty):
+    e = args[0]
+    if e.variant == 1:
+        return [("ret", e, None)]
+    return in_state_call(ex, args[1], [])
+
+
+@model(r"slice::<impl \[.*\]>::sort$")
+def m_slice_sort(ex, st, func, args, argtys, dest_ty):
+    """insertion sort with solver-decided comparisons (derive(Ord) semantics on the elements)"""
+    base = cref(args[0])
+    v = base.get()
+    items = list(v)
+    out = []
+    for x in items:
+        pos = len(out)
+        for j, y in enumerate(out):
+            lt, eq = lex_cmp(x, y)
+            if ex.decide(st, lt):
+                pos = j
+                break
+        out.insert(pos, x)
+    v[:] = out
+    return [("ret", Struct([]), None)]
+
+
+@model(r"^<ScriptBuf as Deref>::deref$")
+def m_scriptbuf_deref(ex, st, func, args, argtys, dest_ty):
+    return [("ret", args[0], None)]
+
+
+@model(r"bitcoin::Script::is_op_return$")
+def m_is_op_return(ex, st, func, args, argtys, dest_ty):
+    s = deref(args[0])
+    if not (isinstance(s, Opaque) and s.what == "script"):
+        raise Unsupported("is_op_return on %r" % (s,))
+    return [("ret", ex.decide(st, s.data["op_return"]), None)]
+
+
+@model(r"ordinals::Artifact::mint$")
+def m_artifact_mint(ex, st, func, args, argtys, dest_ty):
+    a = deref(args[0])
+    # Cenotaph { etching, flaw, mint } / Runestone { edicts, etching, mint, pointer }
+    return [("ret", copy.deepcopy(a.fields[0][2]), None)]
+
+
+@model(r"into_usize::IntoUsize>::into_usize$")
+def m_into_usize(ex, st, func, args, argtys, dest_ty):
+    return [("ret", args[0], None)]
